@@ -7,36 +7,10 @@
 //! `VIOLATION property=<id> replay=<path>` was printed), 2 = inconclusive
 //! (harness error, hang, time-out).
 
-#[macro_use]
-mod common;
-
-mod c04;
-mod c05;
-
-use common::*;
+use rfverif::common::*;
+use rfverif::find;
 use serde_json::Value;
 use std::time::{Duration, Instant};
-
-struct Module {
-    id: &'static str,
-    rule: &'static str,
-    run: fn(&mut Ctx),
-    replay: fn(&str, &Value) -> Check,
-}
-
-macro_rules! module {
-    ($id:literal, $m:ident) => {
-        Module { id: $id, rule: $m::RULE, run: $m::run, replay: $m::replay }
-    };
-}
-
-fn modules() -> Vec<Module> {
-    vec![module!("C04", c04), module!("C05", c05)]
-}
-
-fn find(id: &str) -> Option<Module> {
-    modules().into_iter().find(|m| m.id == id)
-}
 
 fn watchdog(limit: Duration) {
     std::thread::spawn(move || {
